@@ -215,3 +215,166 @@ End Channel.
 Definition start : state := Some (init, []).
 Definition bytes_of (ops : list op) : bytes :=
   concat (map (fun o => match o with Deliver c => c | Finish => [] end) ops).
+
+(** ---- the same channel with its three buffers kept apart ----
+    [k_lbuf] = LineReceiver._buffer, the chunked decoder's own _buffer (inside the C22 state [st]),
+    [k_dbuf] = HTTPChannel._dataBuffer (a list of byte strings, joined by requestDone).  One iteration of
+    LineReceiver's loop: line mode as above; raw mode hands ALL of _buffer to rawDataReceived, which
+    runs the transfer decoder's whole internal loop (C22's [D]) or, while a request is handled, appends
+    to _dataBuffer.  The finish callback's extra bytes go _dataBuffer -> requestDone -> setLineMode ->
+    (re-entrant dataReceived, _busyReceiving) -> appended to _buffer.  Proofs (Buffers.v): this machine
+    and the single-buffer one above produce the same events, and their states correspond ([alpha]). *)
+Inductive kphase :=
+| KFirst (skipped : bool)
+| KHeaders (m t v pending : bytes) (h : hst)
+| KBodyLen (r : rhead) (n : N) (acc : bytes)
+| KBodyChunk (r : rhead) (s : st) (acc : bytes)        (* the decoder with its own buffer *)
+| KHandling
+| KDead.
+
+Record kst := mkk { k_ph : kphase; k_lbuf : bytes; k_dbuf : list bytes;
+                    k_hsize : N; k_pers : bool; k_nreq : nat }.
+
+Definition kinit : kst := mkk (KFirst false) [] [] 0%N true 0.
+
+(* the single-buffer view of a three-buffer state *)
+Definition alpha_ph (p : kphase) : phase :=
+  match p with
+  | KFirst sk => PFirst sk
+  | KHeaders m t v pend h => PHeaders m t v pend h
+  | KBodyLen r n acc => PBodyLen r n acc
+  | KBodyChunk r s acc => PBodyChunk r (d_of s) acc
+  | KHandling => PHandling
+  | KDead => PDead
+  end.
+Definition alpha_buf (k : kst) : bytes :=
+  match k_ph k with
+  | KBodyChunk _ s _ => buf s ++ k_lbuf k
+  | KHandling => concat (k_dbuf k) ++ k_lbuf k
+  | _ => k_lbuf k
+  end.
+Definition alpha (k : kst) : cst * bytes :=
+  (mkc (alpha_ph (k_ph k)) (k_hsize k) (k_pers k) (k_nreq k), alpha_buf k).
+
+Definition kphase_of (p : phase) : kphase :=
+  match p with
+  | PFirst sk => KFirst sk
+  | PHeaders m t v pend h => KHeaders m t v pend h
+  | PBodyLen r n acc => KBodyLen r n acc
+  | PBodyChunk r d acc => KBodyChunk r (dec_of d []) acc      (* a fresh decoder: empty buffer *)
+  | PHandling => KHandling
+  | PDead => KDead
+  end.
+
+Inductive kres :=
+| KGo (e : list ev) (k : kst)      (* loop continues *)
+| KStop (e : list ev).             (* connection closing *)
+
+Section Channel3.
+  Variable resp : nat -> bool.
+
+  (* after a line-mode step of the single-buffer machine: the new parser state, the rest stays in _buffer *)
+  Definition of_sres (k : kst) (s : sres) : kres :=
+    match s with
+    | Emit e x rest => KGo e (mkk (kphase_of (ph x)) rest (k_dbuf k) (hsize x) (pers x) (nreq x))
+    | Wait _ => KGo [] k
+    | Fail e => KStop e
+    end.
+
+  (* _finishRequestBody(extra): _dataBuffer.append(extra); allContentReceived(); the resource; requestDone *)
+  Definition kfinish_body (k : kst) (r : rhead) (body extra : bytes) : kres :=
+    let rq := EvReq (mkreq (rh_m r) (rh_t r) (rh_v r) (rh_hdrs r) body) in
+    let dbuf := k_dbuf k ++ [extra] in
+    if resp (k_nreq k) then
+      if k_pers k
+      then KGo [rq; EvResp] (mkk (KFirst false) (k_lbuf k ++ concat dbuf) [] 0%N true (S (k_nreq k)))
+      else KStop [rq; EvResp; EvClose]
+    else KGo [rq] (mkk KHandling (k_lbuf k) dbuf 0%N (k_pers k) (S (k_nreq k))).
+
+  (** one iteration of [while self._buffer]; [k_lbuf k] is non-empty; [None] = must wait for more data *)
+  Definition kstep (k : kst) : option kres :=
+    match k_ph k with
+    | KFirst _ | KHeaders _ _ _ _ _ =>
+        let x := mkc (alpha_ph (k_ph k)) (k_hsize k) (k_pers k) (k_nreq k) in
+        match step resp x (k_lbuf k) with
+        | Wait _ => None
+        | s => Some (of_sres k s)
+        end
+    | KBodyLen r n acc =>
+        let data := k_lbuf k in
+        let k0 := mkk (k_ph k) [] (k_dbuf k) (k_hsize k) (k_pers k) (k_nreq k) in
+        if N.ltb (N.of_nat (length data)) n
+        then Some (KGo [] (mkk (KBodyLen r (n - N.of_nat (length data))%N (acc ++ data)) [] (k_dbuf k)
+                               (k_hsize k) (k_pers k) (k_nreq k)))
+        else Some (kfinish_body k0 r (acc ++ firstn (N.to_nat n) data) (skipn (N.to_nat n) data))
+    | KBodyChunk r s acc =>
+        let k0 := mkk (k_ph k) [] (k_dbuf k) (k_hsize k) (k_pers k) (k_nreq k) in
+        match C22.Model.D true default_maxtr (with_buf s (buf s ++ k_lbuf k)) with
+        | (o, DMore s') => Some (KGo [] (mkk (KBodyChunk r s' (acc ++ concat o)) [] (k_dbuf k)
+                                             (k_hsize k) (k_pers k) (k_nreq k)))
+        | (o, DFin extra) => Some (kfinish_body k0 r (acc ++ concat o) extra)
+        | (o, DBad _) => Some (KStop [Ev400])
+        end
+    | KHandling =>
+        Some (KGo [] (mkk KHandling [] (k_dbuf k ++ [k_lbuf k]) (k_hsize k) (k_pers k) (k_nreq k)))
+    | KDead => Some (KGo [] (mkk KDead [] (k_dbuf k) (k_hsize k) (k_pers k) (k_nreq k)))
+    end.
+
+  (* the loop; outer [None] = out of fuel (excluded in the theorems; never happens with [kfuel]) *)
+  Fixpoint kdrain (fuel : nat) (k : kst) : option (list ev * option kst) :=
+    match fuel with
+    | O => None
+    | S f =>
+        match k_lbuf k with
+        | [] => Some ([], Some k)
+        | _ :: _ =>
+            match kstep k with
+            | None => Some ([], Some k)
+            | Some (KStop e) => Some (e, None)
+            | Some (KGo e k') =>
+                match kdrain f k' with
+                | Some (e', r) => Some (e ++ e', r)
+                | None => None
+                end
+            end
+        end
+    end.
+  Definition kfuel (k : kst) : nat := 2 * length (k_lbuf k) + 4.
+
+  (* dataReceived *)
+  Definition kfeed (s : option kst) (c : bytes) : option (list ev * option kst) :=
+    match s with
+    | None => Some ([], None)
+    | Some k => let k1 := mkk (k_ph k) (k_lbuf k ++ c) (k_dbuf k) (k_hsize k) (k_pers k) (k_nreq k) in
+                kdrain (kfuel k1) k1
+    end.
+
+  (* the resource finishes: requestDone *)
+  Definition kfinish (s : option kst) : option (list ev * option kst) :=
+    match s with
+    | None => Some ([], None)
+    | Some k =>
+        match k_ph k with
+        | KHandling =>
+            if k_pers k
+            then let k1 := mkk (KFirst false) (k_lbuf k ++ concat (k_dbuf k)) [] 0%N true (k_nreq k) in
+                 match kdrain (kfuel k1) k1 with
+                 | Some (e, r) => Some (EvResp :: e, r)
+                 | None => None
+                 end
+            else Some ([EvResp; EvClose], None)
+        | _ => Some ([], s)
+        end
+    end.
+
+  Definition kapply (s : option kst) (o : op) := match o with Deliver c => kfeed s c | Finish => kfinish s end.
+  Fixpoint krun (s : option kst) (ops : list op) : option (list ev * option kst) :=
+    match ops with
+    | [] => Some ([], s)
+    | o :: r =>
+        match kapply s o with
+        | Some (e, s1) => match krun s1 r with Some (e', s2) => Some (e ++ e', s2) | None => None end
+        | None => None
+        end
+    end.
+End Channel3.
